@@ -76,6 +76,11 @@ CLAIMED = {
              "Tie: translator facts on all four token sites, the relay and the set_parent/add_child pair; real sessions (chains, fan-out, moves, consecutive re-parents, hierarchies created in the marking frame) projected per child onto the slice (parent uuid and token after every frame); oracle (same parent on all peers, children lists consistent and duplicate-free, traffic stops).",
         note="Trusted: as for C02; bevy_hierarchy's push_children/update_old_parents are modelled from their 0.14 source, tied by the oracle's children-list checks only; conflicting simultaneous re-parents by different peers are outside the property.",
         technique="Lean 4 proof (component-slice invariants generalised over the relay mode; hierarchy well-formedness) + per-child trace correspondence + oracle", ref="§7 C05"),
+    "C15": dict(
+        text="Machine-checked proof on the connection-state machines (run conditions resource_added / resource_removed with their change-detection flag and Local, in_state, NextState applied one frame later): from every state reachable by any sequence of start/stop hosting, connect, disconnect, reconnect, handshake events and frames, ServerState agrees with hosting after two undisturbed frames; ClientState requests Connected only in a frame in which the RenetClient reported connected and becomes Connected only through such a request; it is Disconnected two frames after the transport was removed from any state (Connecting included); the host raises InitialSyncFinished exactly with its transition to Connected and not again; one RequestInitialSync per join. The pre-repair condition (D10) is refuted by a kernel-checked witness. "
+             "Tie: six translator facts (run conditions of the five state systems, gates of the three replication chains, the is_connected check, the three sync-finished sites); every peer of real connect/disconnect/reconnect histories with arbitrarily interleaved frames replayed on the model (published states after every frame); oracle: two-frame tracking, never-early, replication only in Connected, at most one InitialSyncFinished per join and exactly one for a completed join, and at that frame every entity and registered component of the host's snapshot is present on the client.",
+        note="Trusted: Lean kernel + standard axioms; bevy's run-condition and state-transition semantics modelled from the 0.14 source, tied by sampled trace correspondence; the netcode handshake is an input of the model (observed is_connected); the content equation at InitialSyncFinished is an oracle check (theorems for it belong to C03); a transport removed and re-inserted between two frames is invisible to resource_removed (not generated: each operation is followed by a frame).",
+        technique="Lean 4 proof (finite-state invariants by exhaustive case analysis, lifted to all operation sequences) + per-peer trace correspondence + oracle", ref="§7 C15"),
 }
 PENDING_REASON = "not claimed yet: machinery for this property is still being built (see DESIGN.md §10 build order); no check is registered until its theorems and tie run"
 
